@@ -1,7 +1,7 @@
 (* Gen/BloomConstsOk.v — re-proves, by computation, the side conditions the generic Bloom
    theorems assume of the constants generated from the repo's current source: Generate and
    Contains rotate by the same amounts, the clamp of k stays a byte, is at least 1 and below the
-   reserved range of Contains.  A changed constant that invalidates one of them breaks this
+   reserved range of Contains, the limit of Contains covers every 32-bit hash.  A changed constant that invalidates one of them breaks this
    file (a proof obligation). *)
 From GL Require Import Gen.Consts Codec.Bloom.
 From GL Require Export Gen.BloomInst.
@@ -9,6 +9,7 @@ From GL Require Export Gen.BloomInst.
 Lemma bp_ok : bparams_ok bp.
 Proof. unfold bparams_ok, bp; cbn. repeat split; try (vm_compute; congruence); vm_compute; reflexivity. Qed.
 
-(* the minimum filter size is positive and far from the uint32 wrap (used by bloom_generate_total) *)
-Lemma bp_min_ok : (1 <= b_mincmp bp /\ 1 <= b_minset bp /\ b_minset bp < 2 ^ 32 - 7)%N.
+(* the minimum filter size is positive and far from the uint32 wrap; the ceiling of Generate is the
+   largest multiple of 8 below 2^32 and the limit of Contains is 2^32 (used by the totality theorems) *)
+Lemma bp_tot_ok : bparams_tot_ok bp.
 Proof. vm_compute. repeat split; congruence. Qed.
